@@ -69,7 +69,8 @@ type PathSample struct {
 
 type FailureGroup struct {
 	Failure
-	Count int `json:"count"`
+	Count int       `json:"count"`
+	Alts  []Failure `json:"-"` // further instances of the same group (other paths), tried if the first does not replay
 }
 
 type HarnessResult struct {
@@ -118,6 +119,8 @@ func (e *Engine) resetPath(prefix []int64) {
 	e.instrs, e.depth = 0, 0
 	e.osLog = nil
 	e.schedTrace = nil
+	e.tarScript = nil
+	e.namedErrs = nil
 	e.schedInit()
 }
 
@@ -292,6 +295,9 @@ func runHarness(ld *Loaded, name, pkgPath, entryName string, o RunOpts) (*Harnes
 					k := failureKey(&f)
 					if g, ok := local.Failures[k]; ok {
 						g.Count++
+						if len(g.Alts) < 4 {
+							g.Alts = append(g.Alts, f)
+						}
 					} else {
 						local.Failures[k] = &FailureGroup{Failure: f, Count: 1}
 					}
@@ -340,6 +346,11 @@ func runHarness(ld *Loaded, name, pkgPath, entryName string, o RunOpts) (*Harnes
 			for k, g := range local.Failures {
 				if og, ok := res.Failures[k]; ok {
 					og.Count += g.Count
+					for _, a := range append([]Failure{g.Failure}, g.Alts...) {
+						if len(og.Alts) < 6 {
+							og.Alts = append(og.Alts, a)
+						}
+					}
 				} else {
 					res.Failures[k] = g
 				}
